@@ -409,6 +409,20 @@ bk!(c20_na_elementwise_2x3, 9, {
     reductions::<DMatrix<f64>, 2, 3, 6, 2>(na(2, 3, &a), na(2, 3, &b), &ai, &bi);
 });
 
+// small ndarray instances of the sign-dependent reductions for the quick tier (the 2x3 ones need 40 GB)
+// @vp name=c20_nd_reduce_1x2 prop=C20 tier=quick mem=30 t=480 features=backends fns=ndarray::sum,max,min,norm,max_diff size=1x2 dom=lattice(-4..4),f64
+bk!(c20_nd_reduce_1x2, 6, {
+    let (ai, a) = latarr::<2>(-4, 4);
+    let (bi, b) = latarr::<2>(-4, 4);
+    reductions::<Array2<f64>, 1, 2, 2, 0>(nd(1, 2, &a), nd(1, 2, &b), &ai, &bi);
+});
+// @vp name=c20_nd_elementwise_1x2 prop=C20 tier=quick mem=30 t=480 features=backends fns=ndarray::add,sub,mul,negative,abs,mul_scalar,approximate_eq size=1x2 dom=lattice(-4..4),f64
+bk!(c20_nd_elementwise_1x2, 18, {
+    let (ai, a) = latarr::<2>(-4, 4);
+    let (bi, b) = latarr::<2>(-4, 4);
+    reductions::<Array2<f64>, 1, 2, 2, 2>(nd(1, 2, &a), nd(1, 2, &b), &ai, &bi);
+});
+
 // nalgebra matmul (ndarray's goes through inline assembly in `matrixmultiply` and cannot be translated)
 // @vp name=c20_na_matmul_2x3_3x2 prop=C20 tier=quick t=480 features=backends fns=nalgebra::matmul size=2x3*3x2 dom=lattice(-3..3),f64
 bk!(c20_na_matmul_2x3_3x2, 9, {
